@@ -311,6 +311,12 @@ class FnIntervals:
                 x, y = self.op(a[0]), self.op(a[1])
                 if x is not None and y is not None:
                     return Iv(max(x.lo, y.lo), max(x.hi, y.hi), x.src | y.src, x.exact and y.exact)
+            if name == "core::cmp::Ord::clamp" and len(a) == 3:
+                x, lo_, hi_ = self.op(a[0]), self.op(a[1]), self.op(a[2])
+                if lo_ is not None and hi_ is not None:
+                    xl = x.lo if x is not None else lo_.lo
+                    xh = x.hi if x is not None else hi_.hi
+                    return Iv(max(xl, lo_.lo), min(xh, hi_.hi), x.src if x is not None else frozenset(), False)
             if name in ("core::convert::From::from", "core::convert::Into::into") and len(a) == 1 and pty:
                 v = self.op(a[0])
                 if v is not None and v.within(ty_range(pty)):
